@@ -512,7 +512,8 @@ class Lib:
     def binop(self, run, op, a, b, inplace=False):
         if isinstance(a, (Num, BoolV)) and isinstance(b, (Num, BoolV)):
             return self.num_binop(run, op, a, b)
-        if isinstance(a, Ref) and isinstance(b, Ref) and op == 'Add':
+        if isinstance(a, Ref) and isinstance(b, (Ref, SeqV)) and op == 'Add' and \
+                isinstance(run.deref(a), (ListO, SeqO, SymListO)):
             return self.list_concat(run, a, b)
         if isinstance(a, SeqV) and a.pylist and isinstance(b, (SeqV, Ref)) and op == 'Add':
             return self.list_concat(run, a, b)
